@@ -354,7 +354,56 @@ def run(ctx):
             ctx.violation({"kind": "impl-violation", "what": "an imported value behaves differently from the module body evaluated in place",
                            "case": l, "imported": a[:400], "in_place": b[:400]})
 
+    # ---- model of value_to_instructions_from_cache vs the real compiler: programs whose whole body is
+    # an import are packaged like any other program; the driver re-emits the value with the model
+    pure = []
+    for o, l in qimp:
+        items = sexpr.parse("(" + l + ")")
+        if re.fullmatch(r"%m(\.\w+)*", items[0].strip()):
+            mods = " ".join("(mod %s %s)" % (sexpr.quote(x[1]), sexpr.quote(x[2])) for x in items[1:] if isinstance(x, list) and x[0] == "mod")
+            pure.append("%s %s (behind) (merge ts)" % (sexpr.quote(items[0]), mods))
+    pure = pure[:ctx.n(250, 3000)]
+    emit_same = emit_skip = emit_differ = emit_instrs = 0
+
+    def emit_work(chunk):
+        rc, pk = ctx.run_bin(qp, chunk, timeout=1500)
+        rc2, ev = ctx.run_bin(drv, pk, args=["--emit"], timeout=1500)
+        rc3, vv = ctx.run_bin(drv, pk, timeout=1500)
+        return [p[:200] for p in pk], ev, vv
+
+    if pure:
+        nsh = min(NCPU, max(1, len(pure) // 10))
+        pchunks = [pure[i::nsh] for i in range(nsh)]
+        with cf.ThreadPoolExecutor(max_workers=nsh) as ex:
+            eres = list(ex.map(emit_work, pchunks))
+        for chunk, (pk, ev, vv) in zip(pchunks, eres):
+            for l, p, e, v in zip(chunk, pk, ev, vv):
+                if not p.startswith("(packaged"):
+                    emit_skip += 1
+                    continue
+                mm = re.match(r"\(emit same (\d+)\)", e)
+                if mm:
+                    emit_same += 1
+                    emit_instrs += int(mm.group(1))
+                elif e.startswith("(emit skip"):
+                    emit_skip += 1
+                else:
+                    emit_differ += 1
+                    ctx.violation({"kind": "correspondence-broken",
+                                   "correspondence": "vm/Remap.v emit_cached vs compiler.rs value_to_instructions_from_cache",
+                                   "case": l[:600], "verdict": e[:300]}, no_input=True)
+                for m2 in re.finditer(r"\((ts|mg) (accept|reject|driver-error)", v or ""):
+                    validated += 1
+                    if m2.group(2) == "accept":
+                        accepted += 1
+                    else:
+                        rejected += 1
+                        ctx.violation({"kind": "translation-validation-rejection", "what": "the verified renaming validator rejects a real packaging output (importing program)",
+                                       "case": l[:600], "verdict": (v or "")[:400]}, no_input=True)
+
     ctx.cov.update({
+        "import_reemission_model_vs_compiler": emit_same, "import_reemission_instructions": emit_instrs,
+        "import_reemission_skipped": emit_skip, "import_reemission_differ": emit_differ,
         "programs": programs, "packagings_validated": validated, "packagings_accepted": accepted, "rejected": rejected,
         "functions_mapped": fns_mapped, "instructions_mapped": ins_mapped, "type_compatibility_rows_checked": rows_checked,
         "tree_shakes_that_dropped_functions": shaken_dropped, "merges_that_shifted_indices": merges_shifted,
